@@ -55,6 +55,19 @@ CHECKS['C16'] = ('4.C16', 'The real raw_string (open, close test, until loop, co
                  '(all lengths up to the bound, all start offsets): match iff opening bracket of level k followed by a closing bracket of level k, consumption through the first such close, content span '
                  'without one leading line ending, other levels ignored, failure without consumption; lazy and eager inputs, three eol policies, custom characters, content rules.')
 
+CHECKS['C06'] = ('4.C06', 'For 25 (quick) / 40 (thorough) byte-oriented and UTF-8 rules and small grammars under the five eol policies, on symbolic bytes with symbolic initial byte/line/column, the counters '
+                 'of the eager input, lazy position(), the positions seen by control hooks, actions, raise and parse-tree nodes are proved equal to an independent recount of the consumed prefix and '
+                 'eager == lazy. One recorded finding (D12, cr_crlf eol rule) is excluded by a narrow predicate and re-confirmed on every run.')
+CHECKS['C11'] = ('4.C11', 'The real analyze_cycles_impl::work() (recursion cut, containers replaced by array-backed stand-ins) is proved to satisfy the frame contract from which soundness follows by '
+                 'induction: every sub-rule enterable at the start position is explored without over-claiming consumption, re-entry without consumption is counted, the consumes-verdict is conservative; '
+                 'counterexamples are replayed as whole analyze runs of the real code on an abstract grammar against a reference. The conservativeness of analyze_traits is argued in DESIGN.md, not checked here.')
+CHECKS['C15'] = ('4.C15', 'accumulate_digit is proved exact-or-overflow from every accumulator state for all 8 integer types and ~70 maxima (step lemma); the digit loops and convert_* kernels on symbolic digit '
+                 'strings up to width+1 digits (8/16-bit exhaustive, 32/64-bit to 11/8 digits plus boundary neighbourhoods, -ftrapv for source-level overflow); all integer rules and actions on symbolic bytes '
+                 'for syntax (no superfluous zeros, signs), consumption, rewind, stored value or reported overflow.')
+CHECKS['C19'] = ('4.C19', 'at / begin_of_line / end_of_line / line_at of memory_input are compared on symbolic bytes (n <= 5/8), every position, five eol policies, eager and lazy, default and symbolic initial '
+                 'counters, with an independent line splitter and numeric pointer-range checks. Two recorded findings (D11 initial counters, C19_EOL2 two-byte policies) are excluded by narrow predicates '
+                 'and re-confirmed on every run.')
+
 NOT_YET = {}
 
 
